@@ -107,3 +107,15 @@ func max(a, b int) int {
 	}
 	return b
 }
+
+// LinearComplexityCalls returns the linear-complexity call for arbitrary block lengths (small m for
+// exhaustive block enumeration).
+func LinearComplexityCalls(ms []int) []Call {
+	var out []Call
+	for _, m := range ms {
+		m := m
+		out = append(out, Call{fmt.Sprintf("LinearComplexityProto(m=%d)", m), "C04", m, func(b []bool) []float64 { return pq(r.LinearComplexityProto(b, m)) },
+			func(b []bool) []float64 { return pq(refmodel.LinearComplexity(b, m)) }, true, nil})
+	}
+	return out
+}
